@@ -57,6 +57,14 @@ def neutral(d):
             return {'variant': sid, 'status': 'SKIP'}
         r = subprocess.run(['/verif/bin/wirecheck', '-repo', w, '-property', prop, '-evidence', w + '/.ev', '-known', '/verif/known_findings.json'], env=ENV, capture_output=True, text=True)
         rules = sorted({l.split()[1] for l in r.stdout.splitlines() if l.startswith('  VIOLATION') or l.startswith('  UNDECIDED')})
+        if rules:
+            # restructurings that are recorded as beyond the normal forms (meta.json: observed=alarm) are listed apart
+            try:
+                meta = json.load(open(d + '/meta.json'))
+            except Exception:
+                meta = {}
+            if meta.get('observed') == 'alarm' and set(rules) <= set(meta.get('rules_alarming', [])):
+                return {'variant': sid, 'status': 'DOCUMENTED-ALARM', 'rules': rules}
         return {'variant': sid, 'status': 'SILENT' if not rules else 'ALARM', 'rules': rules}
     finally:
         shutil.rmtree(w, ignore_errors=True)
@@ -64,7 +72,7 @@ ndirs = [d for d in sorted(glob.glob('/verif/seeded/neutral/*')) if os.path.exis
 with cf.ThreadPoolExecutor(8) as ex:
     neutrals = list(ex.map(neutral, ndirs))
 # mechanical behaviour-preserving rewrites (tools/neutralfuzz), one whole-package variant per rewrite: silent for this property
-TRANSFORMS = 'rename invert swapeq negform demorgan parens constextract hoistcond guard2else switch2if retlocal varform reorder splitinit mergeinit hoistarg ret2else splitand lencmp incr boolret predfunc rangeidx elsenest swapand kvorder caseorder renamefile'.split()
+TRANSFORMS = 'rename invert swapeq negform demorgan parens constextract hoistcond guard2else switch2if retlocal varform reorder splitinit mergeinit hoistarg ret2else splitand lencmp incr boolret predfunc rangeidx elsenest swapand kvorder caseorder renamefile extractblock'.split()
 if not os.path.exists('/verif/bin/neutralfuzz') or any(os.path.getmtime(f) > os.path.getmtime('/verif/bin/neutralfuzz') for f in glob.glob('/verif/tools/neutralfuzz/*.go')):
     subprocess.run(['go', 'build', '-o', '/verif/bin/neutralfuzz', '.'], cwd='/verif/tools/neutralfuzz', env=ENV)
 def rewrite(job):
@@ -103,6 +111,7 @@ sv = {
     'seeded_changes': seeds,
     'independent_refactorings_run': len(neutrals), 'independent_refactorings_silent': sum(1 for x in neutrals if x['status'] == 'SILENT'),
     'independent_refactorings_alarming': [x for x in neutrals if x['status'] == 'ALARM'],
+    'independent_restructurings_beyond_the_normal_forms': [x for x in neutrals if x['status'] == 'DOCUMENTED-ALARM'],
     'mechanical_rewrites_run': len(rewrites), 'mechanical_rewrites_silent': sum(1 for x in rewrites if x['status'] == 'SILENT'),
     'mechanical_rewrites': [{'rewrite': x['rewrite'], 'package': x['package'], 'sites': x.get('sites'), 'status': x['status']} for x in rewrites],
     'mechanical_rewrites_alarming': [x for x in rewrites if x['status'] not in ('SILENT',)],
